@@ -7,7 +7,9 @@ import bb_hub as H
 
 NAMES = ["a.txt", "b", "d/c.txt", "d/e/f", "sp ace", "m.txt", "n/new.txt", "z.txt", ".copiaignore", ".copia-notes/todo.md", "x.conflict-note",
          # a directory next to siblings whose names extend its name by a byte below '/': component-wise (Path) and byte-wise (String) orders differ
-         "d.md", "d-old", "n.txt", "d/e.x"]
+         "d.md", "d-old", "n.txt", "d/e.x",
+         # a backslash is an ordinary byte of a Unix file name — not a separator, on the wire neither
+         "r\\w.txt", "d\\c.txt"]
 CONTENTS = [b"one\n", b"two two\n", b"", b"3" * 5000, b"\x00\xff", b"six" * 100000,
             # sizes that are exact multiples of the hub's 256 KiB staging chunk, ending in (or consisting of) zeros: sparse-file / hole tricks
             bytes(range(256)) * 1024 + b"\x00" * 262144, b"\x00" * 524288, b"\x00" * 262144 + b"tail"]
